@@ -19,6 +19,7 @@ def findRec (n : String) : Option RecLayout := Gen.all.find? (fun L => L.name ==
 
 def theModel (frb : Bool) (now : Date) : Model :=
   { layouts := Gen.all, validator := treeValidator Gen.all Gen.allRules Gen.codes b64Go frb,
+    accepts := fun fn x => codeAccepts Gen.codes fn (.s x),
     cm := { dec := Gen.cp037Dec, repl := Gen.cp037Repl }, b64 := b64Go, now := now, frb := frb }
 
 /-- the same machine over the hand-written Spec tables: layout columns for writing and for direct
